@@ -105,11 +105,15 @@ type memLogger struct {
 	node   string
 	fields tchannel.LogFields
 	counts *map[string]int
+	msgs   *map[string]int
 }
 
 func (l *memLogger) Enabled(level tchannel.LogLevel) bool { return level >= tchannel.LogLevelInfo }
 func (l *memLogger) log(lv, msg string) {
 	(*l.counts)[lv]++
+	if lv != "I" && l.msgs != nil {
+		(*l.msgs)[msg]++
+	}
 	if lv == "E" || lv == "W" || lv == "F" {
 		simrt.Tracef("L %s %s %s %v", l.node, lv, msg, l.fieldStr())
 	}
@@ -135,7 +139,7 @@ func (l *memLogger) WithFields(fs ...tchannel.LogField) tchannel.Logger {
 	nf := make(tchannel.LogFields, 0, len(l.fields)+len(fs))
 	nf = append(nf, l.fields...)
 	nf = append(nf, fs...)
-	return &memLogger{w: l.w, node: l.node, fields: nf, counts: l.counts}
+	return &memLogger{w: l.w, node: l.node, fields: nf, counts: l.counts, msgs: l.msgs}
 }
 
 // ---- tracking frame pool (C12) ----
@@ -253,15 +257,17 @@ type Node struct {
 	L        *Listener
 	Pool     *TrackPool
 	LogCount map[string]int
+	LogMsgs  map[string]int // warn/error messages seen
 	Opts     NodeOpts
 	States   []tchannel.ChannelState
 	closeCalledEv, closeReturnedEv int64
 	closedSeen int
+	samples    []stSample
 	Dead     bool
 }
 
 func (w *World) addNode(o NodeOpts) *Node {
-	n := &Node{W: w, Name: o.Name, Host: o.Host, Service: o.Service, Opts: o, LogCount: map[string]int{}}
+	n := &Node{W: w, Name: o.Name, Host: o.Host, Service: o.Service, Opts: o, LogCount: map[string]int{}, LogMsgs: map[string]int{}}
 	n.Pool = newTrackPool(w, o.Name)
 	n.Pool.PayCap = o.PayCap
 	co := o.Conn
@@ -270,7 +276,7 @@ func (w *World) addNode(o NodeOpts) *Node {
 	opts := &tchannel.ChannelOptions{
 		ProcessName:              o.Name + "-proc",
 		DefaultConnectionOptions: co,
-		Logger:                   &memLogger{w: w, node: o.Name, counts: &n.LogCount},
+		Logger:                   &memLogger{w: w, node: o.Name, counts: &n.LogCount, msgs: &n.LogMsgs},
 		RelayHost:                o.Relay,
 		RelayMaxTimeout:          o.RelayMaxTimeout,
 		RelayMaxTombs:            o.RelayMaxTombs,
@@ -323,17 +329,38 @@ func (l *ownedListener) Accept() (net.Conn, error) {
 }
 
 // sampleState records the channel state and checks monotonicity (C07 rule 5).
+// State() contains scheduling points, so a sample is an interval [call, return]
+// whose linearization point lies somewhere inside: only a sample that RETURNED
+// before another one was CALLED is ordered before it.
 func (n *Node) sampleState() tchannel.ChannelState {
+	callEv := n.W.tick()
 	st := n.Ch.State()
+	retEv := n.W.tick()
 	n.W.eval("C07.state-sample")
-	if k := len(n.States); k == 0 || n.States[k-1] != st {
-		if k > 0 && st < n.States[k-1] {
-			n.W.violate("C07", "state-backwards", "channel %s reported state %v after %v", n.Name, st, n.States[k-1])
+	for _, p := range n.samples {
+		if p.ret < callEv && p.st > st {
+			n.W.violate("C07", "state-backwards", "channel %s reported state %v (sample called at #%d) after an earlier sample had already returned %v (at #%d)", n.Name, st, callEv, p.st, p.ret)
+			break
 		}
+	}
+	// keep, per distinct state, the earliest return
+	found := false
+	for _, p := range n.samples {
+		if p.st == st {
+			found = true
+		}
+	}
+	if !found {
+		n.samples = append(n.samples, stSample{ret: retEv, st: st})
 		n.States = append(n.States, st)
 		n.W.event("state", "%s %v", n.Name, st)
 	}
 	return st
+}
+
+type stSample struct {
+	ret int64
+	st  tchannel.ChannelState
 }
 
 // Close calls Channel.Close and records when.
